@@ -387,6 +387,7 @@ def nn_descent(
 def diversify(indices, distances, data, dist, rng_state, prune_probability=1.0):
 
     for i in numba.prange(indices.shape[0]):
+        local_rng_state = rng_state + i
 
         new_indices = [indices[i, 0]]
         new_distances = [distances[i, 0]]
@@ -401,7 +402,7 @@ def diversify(indices, distances, data, dist, rng_state, prune_probability=1.0):
 
                 d = dist(data[indices[i, j]], data[c])
                 if new_distances[k] > FLOAT32_EPS and d < distances[i, j]:
-                    if tau_rand(rng_state) < prune_probability:
+                    if tau_rand(local_rng_state) < prune_probability:
                         flag = False
                         break
 
@@ -433,6 +434,7 @@ def diversify_csr(
     n_nodes = graph_indptr.shape[0] - 1
 
     for i in numba.prange(n_nodes):
+        local_rng_state = rng_state + i
 
         current_indices = graph_indices[graph_indptr[i] : graph_indptr[i + 1]]
         current_data = graph_data[graph_indptr[i] : graph_indptr[i + 1]]
@@ -450,7 +452,7 @@ def diversify_csr(
                         source_data[current_indices[j]], source_data[current_indices[k]]
                     )
                     if current_data[l] > FLOAT32_EPS and d < current_data[j]:
-                        if tau_rand(rng_state) < prune_probability:
+                        if tau_rand(local_rng_state) < prune_probability:
                             retained[j] = 0
                             break
 
